@@ -16,6 +16,14 @@ PROP = "coq/C14/Properties_C14.v"
 NB = 64     # metadynamics grid: one bin per hill as far as possible
 
 
+def run_twice(f, *a, **k):
+    """a walker that does not answer in time is a finding only if it happens again on the same case (the machine is shared)"""
+    try:
+        return f(*a, **k)
+    except W.WalkerTimeout:
+        return f(*a, **k)
+
+
 def close(a, b, exact):
     if exact:
         return a == b
@@ -247,7 +255,7 @@ def check_abf(run, exe, model, cases, scratch):
         run.sample({"kind": "abf", "n": c["n"], "nd": c["nd"], "nbins": c["nbins"], "freq": c["freq"],
                     "events": c["events"][:12], "more_events": max(0, len(c["events"]) - 12)}, cap=2)
         try:
-            out, stats = scen.run_abf(exe, c, scratch, timeout=10.0)
+            out, stats = run_twice(scen.run_abf, exe, c, scratch, timeout=10.0)
         except W.WalkerTimeout as e:
             ndead += 1
             run.violation("abf:exchange-deadlock", "the walkers did not complete the schedule (%s): a walker waits for an "
@@ -492,7 +500,7 @@ def check_meta(run, exe, model, cases, scratch, fixflags="1 1"):
         run.sample({"kind": "meta", "n": n, "hillfreq": c["hillfreq"], "upfreq": c["upfreq"], "restartfreq": c["restartfreq"],
                     "lockstep": c["lockstep"], "events": c["events"][:14], "more_events": max(0, len(c["events"]) - 14)}, cap=4)
         try:
-            out = scen.run_meta(exe, c, scratch, timeout=25.0)
+            out = run_twice(scen.run_meta, exe, c, scratch, timeout=25.0)
         except W.WalkerTimeout as e:
             run.violation("meta:walker-died", "a walker stopped answering (%s)" % str(e)[:200], {"kind": "meta", "case": c})
             continue
@@ -702,7 +710,7 @@ def check_view(run, exe, model, cases, scratch, fixflags="1 1"):
         run.sample({"kind": "view", "hillfreq": c["hillfreq"], "upfreq": c["upfreq"], "restartfreq": c["restartfreq"],
                     "events": c["events"][:14], "more_events": max(0, len(c["events"]) - 14)}, cap=6)
         try:
-            out = scen.run_view(exe, c, scratch, timeout=25.0)
+            out = run_twice(scen.run_view, exe, c, scratch, timeout=25.0)
         except W.WalkerTimeout as e:
             run.violation("view:walker-died", "a walker stopped answering while reading a peer's partially written files (%s)" % str(e)[:200],
                           {"kind": "view", "case": c})
@@ -879,7 +887,7 @@ def check_czar(run, exe, model, cases, scratch):
         run.count(json.dumps([c["steps"], c["gather_at"], c["freq"]]), True)
         run.sample({"kind": "czar", "n": c["n"], "nbins": c["nbins"], "freq": c["freq"], "gather_at": c["gather_at"], "steps": c["steps"][:3]}, cap=7)
         try:
-            res, stats = scen.run_czar(exe, c, scratch, timeout=15.0)
+            res, stats = run_twice(scen.run_czar, exe, c, scratch, timeout=15.0)
         except W.WalkerTimeout as e:
             run.violation("czar:gather-deadlock", "the walkers did not complete the collective CZAR gather (%s)" % str(e)[:200], {"kind": "czar", "case": c})
             continue
@@ -945,7 +953,7 @@ def check_opes(run, exe, model, cases, scratch):
         run.count(json.dumps([c["steps"], c["pace"]]), True)
         run.sample({"kind": "opes", "n": c["n"], "pace": c["pace"], "steps": c["steps"][:3]}, cap=8)
         try:
-            res, stats = scen.run_opes(exe, c, scratch, timeout=15.0)
+            res, stats = run_twice(scen.run_opes, exe, c, scratch, timeout=15.0)
         except W.WalkerTimeout as e:
             run.violation("opes:gather-deadlock", "the walkers did not complete the schedule (%s)" % str(e)[:200], {"kind": "opes", "case": c})
             continue
